@@ -55,24 +55,34 @@ def hasDup (ncols : Nat) : List (V3 α) → Bool
 /-- `np.hstack((vertices, zeros))` for `(N,2)` input -/
 def pad (ncols : Nat) (v : V3 α) : V3 α := if ncols = 2 then ⟨v.x, v.y, lit 0⟩ else v
 
-/-- `computed_normal = cross(v2 − v1, v0 − v1); computed_normal /= norm(computed_normal)` -/
-def cornerNormal (verts : List (V3 α)) : V3 α :=
+/-- `x /= np.linalg.norm(x)`. A zero vector gives `0/0 = nan` in every component: `none` stands for that
+all-nan array (every later `np.isclose` involving it is `False`). -/
+def unitize (c : V3 α) : Option (V3 α) :=
+  if Scalar.eqb (V3.norm c) (lit 0) then none else some (V3.sdiv c (V3.norm c))
+
+/-- `cross(v2 − v1, v0 − v1)` of the first corner -/
+def cornerCross (verts : List (V3 α)) : V3 α :=
   let v0 := verts.getD 0 V3.zero
   let v1 := verts.getD 1 V3.zero
   let v2 := verts.getD 2 V3.zero
-  let c := V3.cross (v2 - v1) (v0 - v1)
-  V3.sdiv c (V3.norm c)
+  V3.cross (v2 - v1) (v0 - v1)
 
-/-- the `normal is None` branch / the supplied normal with its orthogonality test -/
-def chooseNormal (computed : V3 α) (normal : Option (V3 α)) : Except String (V3 α) :=
+/-- `computed_normal = cross(v2 − v1, v0 − v1); computed_normal /= norm(computed_normal)` -/
+def cornerNormal (verts : List (V3 α)) : Option (V3 α) := unitize (cornerCross verts)
+
+/-- the `normal is None` branch / the supplied normal with its orthogonality test. The result is the stored
+`_normal` (`none` = the nan array of a degenerate first corner). -/
+def chooseNormal (computed : Option (V3 α)) (normal : Option (V3 α)) : Except String (Option (V3 α)) :=
   match normal with
   | none => .ok computed
   | some nv =>
     -- norm_normal = np.array(normal, dtype=float64); norm_normal /= np.linalg.norm(normal)
-    let nn := V3.sdiv nv (V3.norm nv)
     -- if not np.isclose(np.abs(np.dot(computed_normal, norm_normal)), 1): raise
-    if isclose (Scalar.abs (V3.dot computed nn)) (lit 1) rtolDefault atolDefault then .ok nn
-    else .error "ValueError:normal"
+    match computed, unitize nv with
+    | some c, some nn =>
+      if isclose (Scalar.abs (V3.dot c nn)) (lit 1) rtolDefault atolDefault then .ok (some nn)
+      else .error "ValueError:normal"
+    | _, _ => .error "ValueError:normal"     -- nan never passes np.isclose
 
 /-- the coplanarity loop: `d = n·v0; for v: if not np.isclose(n·v, d, planar_tolerance): raise`
     (third positional argument of `np.isclose` is `rtol`; `atol` keeps its default) -/
@@ -111,7 +121,8 @@ def Polygon.new (ndim ncols : Nat) (rows : List (V3 α)) (normal : Option (V3 α
     let verts := rows.map (pad ncols)
     match chooseNormal (cornerNormal verts) normal with
     | .error e => .error e
-    | .ok n =>
+    | .ok none => .error "ValueError:coplanar"   -- nan normal: `np.isclose(nan, nan)` is False at vertex 0
+    | .ok (some n) =>
       if !coplanar n verts ptol then .error "ValueError:coplanar"
       else if testSimple && !isSimple (align n verts) then .error "ValueError:simple"
       else .ok ⟨verts, n, .fresh, .fresh⟩
